@@ -106,9 +106,9 @@ type isdWorld struct {
 
 // buildWorld creates the ISD entities and TRCs of tl around tgen (truncated to
 // a second, the resolution of every encoded instant).
-func buildWorld(pool *gen.Pool, rng *rand.Rand, isd int, tl timeline, tgen time.Time) *isdWorld {
+func buildWorld(dr *gen.Drawer, isd int, tl timeline, tgen time.Time) *isdWorld {
 	tgen = tgen.Truncate(time.Second)
-	keys := pool.Draw(rng, 8)
+	keys := dr.Take(8)
 	w := &isdWorld{TL: tl, TGen: tgen, certNB: tgen.Add(-20 * 24 * hour), certNA: tgen.Add(20 * 24 * hour)}
 	w.ISD = gen.NewISD(keys[:6], isd, 2, 2, 2, 2, w.certNB, w.certNA)
 	w.OldRoot, w.Kept = w.ISD.Roots[0], w.ISD.Roots[1]
@@ -170,14 +170,11 @@ type chainSpec struct {
 }
 
 // issue builds the chain for key and returns it with the facts the model needs.
-func (w *isdWorld) issue(pool *gen.Pool, rng *rand.Rand, cs chainSpec, asKey gen.Key) ([]*x509.Certificate, chainFacts) {
-	ks := pool.Draw(rng, 3)
-	caKey, twin := ks[0], ks[1]
-	if caKey == asKey {
-		caKey = ks[2]
-	}
-	if twin == asKey {
-		twin = ks[2]
+func (w *isdWorld) issue(dr *gen.Drawer, cs chainSpec, asKey gen.Key) ([]*x509.Certificate, chainFacts) {
+	caKey := dr.Next("")
+	twin := caKey
+	if cs.Dev == "twin-issuer" {
+		twin = dr.Next("")
 	}
 	caNB, caNA := w.TGen.Add(-15*24*hour), w.TGen.Add(15*24*hour)
 	if cs.CAValidOff != [2]time.Duration{} {
